@@ -280,6 +280,11 @@ def cases(M):
                 else:
                     units = tuple(r.sample(("second", "minute", "hour"), 2)) + tuple(r.sample(UNITS[3:], 1))
                 yield {"z": zn, "u": u, "ti": i, "d": d, "units": list(units), "wk": r.randrange(7), "mid": touches_midnight}
+            if oa < ob and (thorough or i % 3 == 0):
+                # both passes of ONE repeated wall time (identical fields, same tzinfo object: they compare and hash equal)
+                # asked for their boundaries one after the other under one week configuration, in both orders
+                yield {"k": "foldhist", "z": zn, "w": lo + r.randrange(hi - lo), "ti": i, "first": r.randrange(2), "wk": r.randrange(7), "u": t * US, "d": 0,
+                       "units": ["second", "minute", "hour", "day"], "mid": touches_midnight}
     for j in range(60000 if thorough else 4000):
         u = gen.random_instant(r) if j % 2 else gen.modern_instant(r)
         yield {"z": r.choice(names), "u": u, "ti": -1, "d": 0, "units": list(UNITS), "wk": j % 7, "mid": False,
@@ -327,6 +332,21 @@ def run(M, c):
     P.week_ends_at(P.WeekDay((wk - 1) % 7))
     try:
         M.sample(c)
+        if c.get("k") == "foldhist":
+            tz = P.timezone(c["z"])
+            F = us_to_fields(c["w"])
+            pair = [P.DateTime(*F, tzinfo=tz, fold=0), P.DateTime(*F, tzinfo=tz, fold=1)]
+            if c["first"]:
+                pair.reverse()
+            for unit in c["units"]:
+                for x in pair:
+                    M.cls("foldhist", c["z"], c["ti"], unit, x.fold, c["first"])
+                    try:
+                        x.start_of(unit)            # contracts judge each call on its own
+                        x.end_of(unit)
+                    except (OverflowError, ValueError):
+                        M.count("out_of_range")
+            return
         if kind == "date":
             x = P.Date(*us_to_fields(c["u"])[:3])
             for unit in UNITS[3:]:
